@@ -29,7 +29,8 @@ def findings_block():
     d=json.load(open(V+'/known_findings.json'))
     out=["| status | property | rule | construct | commit | what failed |","|---|---|---|---|---|---|"]
     for f in d['findings']:
-        out.append(f"| {f['status']} | {f['property']} | {f['rule']} | `{f['construct']}` | {f.get('commit','')} | {re.sub(r'\\s+',' ',f['what'])[:400].replace('|','/')} |")
+        what=re.sub(r"\s+"," ",f['what'])[:400].replace('|','/')
+        out.append(f"| {f['status']} | {f['property']} | {f['rule']} | `{f['construct']}` | {f.get('commit','')} | {what} |")
     return "\n".join(out)
 blocks={'RULES':rules_block(),'SEEDED':seeded_block(),'FINDINGS':findings_block()}
 p=V+'/DESIGN.md'; s=open(p).read()
